@@ -517,6 +517,15 @@ class Translator:
                 return '(catchAllM %s\n      %s)' % (self.block(body, env, cname, end, brk),
                                                      self.block(h.body, env, cname, end, brk))
             raise Untranslatable('try / except ' + h.type.id)
+        if getattr(self, 'effect_mode', None) == 'store' and isinstance(s, ast.Expr) and isinstance(s.value, ast.Call) and \
+                isinstance(s.value.func, ast.Attribute) and s.value.func.attr == 'notify' and not s.value.args and \
+                isinstance(s.value.func.value, ast.Name) and s.value.func.value.id == 'self':
+            # self.notify(): an effect on the world (the listeners are told)
+            self.fresh += 1
+            w = 'w%d' % self.fresh
+            env2 = dict(env)
+            env2['__w'] = '(pure %s)' % w
+            return '(notifyM %s fun %s =>\n      %s)' % (env['__w'], w, self.block(rest, env2, cname, end, brk))
         if isinstance(s, ast.Return) and getattr(self, 'effect_mode', None) == 'store':
             # a method that acts on a world returns its value together with the world
             return '(pairM %s %s)' % (self.expr(s.value, env, cname) if s.value is not None else 'cNone', env['__w'])
@@ -781,10 +790,34 @@ def translate_migration(repo):
 ENFOLD_METHODS = ['add', 'update', 'delete', 'get', 'get_all', 'populate']
 
 
+OBSERVABLE_METHODS = ['add', 'update', 'delete', 'get', 'get_all']
+
+
 def translate_enfold(repo):
-    out = ['import Model.PyPrim', '/-! GENERATED by harness/pytolean.py from vakt/cache.py (class EnfoldCache) - do not edit -/',
+    out = ['import Model.PyPrim', '/-! GENERATED by harness/pytolean.py from vakt/cache.py (class EnfoldCache) and '
+           'vakt/storage/observable.py (class ObservableMutationStorage) - do not edit -/',
            'set_option linter.unusedVariables false', 'namespace Vakt.GenEnfold', 'open Vakt Vakt.PyPrim', '']
     done, failed = [], []
+    tr = Translator(ast.parse(open(os.path.join(repo, 'vakt', 'storage', 'observable.py')).read()))
+    tr.effect_mode = 'store'
+    for m in OBSERVABLE_METHODS:
+        try:
+            f = tr.method('ObservableMutationStorage', m)
+            params = [a.arg for a in f.args.args]
+            if f.args.vararg or f.args.kwarg:
+                raise Untranslatable('star parameters')
+            tr.attrs, tr.fresh = set(), 0
+            env = {p: '(pure p_%s)' % p for p in params}
+            env['__w'] = '(pure p_w)'
+            body = tr.block(f.body, env, 'ObservableMutationStorage', end=lambda e: '(pairM cNone %s)' % e['__w'])
+            if tr.attrs:
+                raise Untranslatable('reads attributes %s' % sorted(tr.attrs))
+            out.append('/-- `vakt.storage.observable.ObservableMutationStorage.%s` (the call of the wrapped storage and the '
+                       'notification made explicit as effects on a world) -/' % m)
+            out.append('def %s_Observable (%s p_w : V) : M :=\n    %s\n' % (m, ' '.join('p_%s' % p for p in params), body))
+            done.append(('Observable.' + m, []))
+        except Untranslatable as e:
+            failed.append(('Observable.' + m, str(e)))
     tr = Translator(ast.parse(open(os.path.join(repo, 'vakt', 'cache.py')).read()))
     tr.effect_mode = 'store'
     for m in ENFOLD_METHODS:
